@@ -168,21 +168,34 @@ Definition init (q : request) : rstate :=
      r_redirects := 0%Z; r_history := []; r_jar := q_jar q |}.
 
 (* top of the `while True:` body up to the request being sent *)
-Definition prep (st : rstate) : err + (rstate * sent) :=
+
+(* `not history and hdrs.AUTHORIZATION in headers` while the URL embeds credentials *)
+Definition conflict (st : rstate) : bool :=
+  match u_cred (r_url st), r_auth st, r_history st with
+  | Some _, Some _, [] => true
+  | _, _, _ => false
+  end.
+
+(* Authorization after `strip_auth_from_url`: URL credentials override what `headers` holds *)
+Definition auth_for (st : rstate) : option authv :=
+  match u_cred (r_url st) with Some t => Some (AUrl t) | None => r_auth st end.
+
+Definition sent_of (st : rstate) : sent :=
   let u := r_url st in
-  let first := match r_history st with [] => true | _ => false end in
-  let conflict := match u_cred u, r_auth st with Some _, Some _ => first | _, _ => false end in
-  if conflict then inl EAuthConflict
-  else
-    let auth := match u_cred u with Some t => Some (AUrl t) | None => r_auth st end in
-    let s := {| s_org := u_org u; s_path := u_path u; s_urlcred := u_cred u; s_meth := r_meth st;
-                s_auth := auth; s_hdrcookie := r_cookie st; s_pauth := r_pauth st; s_reqck := r_reqck st;
-                s_jar := jar_filter (r_jar st) (o_host (u_org u)); s_body := r_body st; s_clen := r_clen st |} in
-    let st' := {| r_url := {| u_org := u_org u; u_cred := None; u_path := u_path u |};
-                  r_auth := auth; r_cookie := r_cookie st; r_pauth := r_pauth st; r_reqck := r_reqck st;
-                  r_meth := r_meth st; r_body := r_body st; r_clen := r_clen st;
-                  r_redirects := r_redirects st; r_history := r_history st; r_jar := r_jar st |} in
-    inr (st', s).
+  {| s_org := u_org u; s_path := u_path u; s_urlcred := u_cred u; s_meth := r_meth st;
+     s_auth := auth_for st; s_hdrcookie := r_cookie st; s_pauth := r_pauth st; s_reqck := r_reqck st;
+     s_jar := jar_filter (r_jar st) (o_host (u_org u)); s_body := r_body st; s_clen := r_clen st |}.
+
+(* loop variables after the request has been built: URL stripped, Authorization stored in `headers` *)
+Definition stripped (st : rstate) : rstate :=
+  let u := r_url st in
+  {| r_url := {| u_org := u_org u; u_cred := None; u_path := u_path u |};
+     r_auth := auth_for st; r_cookie := r_cookie st; r_pauth := r_pauth st; r_reqck := r_reqck st;
+     r_meth := r_meth st; r_body := r_body st; r_clen := r_clen st;
+     r_redirects := r_redirects st; r_history := r_history st; r_jar := r_jar st |}.
+
+Definition prep (st : rstate) : err + (rstate * sent) :=
+  if conflict st then inl EAuthConflict else inr (stripped st, sent_of st).
 
 Inductive step_result :=
 | Stop (o : outcome) (d : disp)
@@ -200,32 +213,39 @@ Definition resolve (cur : origin) (l : location) : err + option url :=
       inr (Some {| u_org := {| o_sch := o_sch cur; o_host := h; o_port := po |}; u_cred := None; u_path := p |})
   end.
 
+Definition toget_of (s : sent) (r : response) : bool :=
+  switch_to_get (rs_status r) (is_head (s_meth s)) (is_post (s_meth s)) (is_get (s_meth s)).
+
+Definition hist_add (st : rstate) (s : sent) (r : response) : list hent :=
+  r_history st ++ [(rs_status r, s_org s, s_path s)].
+
+(* loop variables at `continue` *)
+Definition next_state (st : rstate) (s : sent) (r : response) (target : url) : rstate :=
+  let keep := origin_eqb (s_org s) (u_org target) in
+  let toget := toget_of s r in
+  {| r_url := target;
+     r_auth := if keep then r_auth st else None;
+     r_cookie := if keep then r_cookie st else None;
+     r_pauth := if keep then r_pauth st else None;
+     r_reqck := if keep then r_reqck st else None;
+     r_meth := if toget then MGet else s_meth s;
+     r_body := if toget then BNone else s_body s;
+     r_clen := if toget then false else r_clen st;
+     r_redirects := (r_redirects st + 1)%Z;
+     r_history := hist_add st s r;
+     r_jar := jar_update (r_jar st) (o_host (s_org s)) (rs_setcookie r) |}.
+
 (* from the response having arrived to `continue` / `break` / raise *)
 Definition after (c : config) (st : rstate) (s : sent) (r : response) : step_result :=
-  let j := jar_update (r_jar st) (o_host (s_org s)) (rs_setcookie r) in
   if follow_redirect (rs_status r) (c_allow c) then
-    let redirects := (r_redirects st + 1)%Z in
-    let hist := r_history st ++ [(rs_status r, s_org s, s_path s)] in
-    if too_many_redirects redirects (c_max c) then Stop (Failed ETooManyRedirects hist) DClosed
+    if too_many_redirects (r_redirects st + 1)%Z (c_max c) then Stop (Failed ETooManyRedirects (hist_add st s r)) DClosed
+    else if negb (toget_of s r) && consumed_after_send (s_body s) then Stop (Failed EPayloadConsumed (hist_add st s r)) DClosed
     else
-      let toget := switch_to_get (rs_status r) (is_head (s_meth s)) (is_post (s_meth s)) (is_get (s_meth s)) in
-      if negb toget && consumed_after_send (s_body s) then Stop (Failed EPayloadConsumed hist) DClosed
-      else
-        match resolve (s_org s) (rs_loc r) with
-        | inl e => Stop (Failed e hist) DClosed
-        | inr None => Stop (Done (rs_status r) hist) DReturned       (* 3xx without Location: returned as is *)
-        | inr (Some target) =>
-            let keep := origin_eqb (s_org s) (u_org target) in
-            Next {| r_url := target;
-                    r_auth := if keep then r_auth st else None;
-                    r_cookie := if keep then r_cookie st else None;
-                    r_pauth := if keep then r_pauth st else None;
-                    r_reqck := if keep then r_reqck st else None;
-                    r_meth := if toget then MGet else s_meth s;
-                    r_body := if toget then BNone else s_body s;
-                    r_clen := if toget then false else r_clen st;
-                    r_redirects := redirects; r_history := hist; r_jar := j |} DReleased
-        end
+      match resolve (s_org s) (rs_loc r) with
+      | inl e => Stop (Failed e (hist_add st s r)) DClosed
+      | inr None => Stop (Done (rs_status r) (hist_add st s r)) DReturned     (* 3xx without Location: returned as is *)
+      | inr (Some target) => Next (next_state st s r target) DReleased
+      end
   else Stop (Done (rs_status r) (r_history st)) DReturned.
 
 Record trace := { sents : list sent; disps : list disp; result : outcome }.
@@ -240,8 +260,8 @@ Fixpoint run_from (c : config) (st : rstate) (resps : list response) : trace :=
           match after c st1 s r with
           | Stop o d => {| sents := [s]; disps := [d]; result := o |}
           | Next st2 d =>
-              let t := run_from c st2 rest in
-              {| sents := s :: sents t; disps := d :: disps t; result := result t |}
+              {| sents := s :: sents (run_from c st2 rest); disps := d :: disps (run_from c st2 rest);
+                 result := result (run_from c st2 rest) |}
           end
       end
   end.
@@ -262,11 +282,9 @@ Definition carries_caller_secretb (s : sent) : bool :=
 
 (* the documented method/body table *)
 Definition doc_switch_to_get (status : N) (m : meth) : bool :=
-  match status with
-  | 303 => negb (is_head m)
-  | 301 | 302 => is_post m
-  | _ => false
-  end.
+  if status =? 303 then negb (is_head m)
+  else if (status =? 301) || (status =? 302) then is_post m
+  else false.
 
 Definition http_scheme (s : N) : bool := (s =? 0) || (s =? 1).
 
@@ -282,3 +300,24 @@ Fixpoint hist_of (ss : list sent) (rs : list response) : list hent :=
   | s :: ss', r :: rs' => (rs_status r, s_org s, s_path s) :: hist_of ss' rs'
   | _, _ => []
   end.
+
+(* a Location the loop must not follow *)
+Definition refused_location (l : location) : Prop :=
+  l = LNone \/ l = LInvalid \/ l = LNoHost \/ exists u, l = LAbs u /\ http_scheme (o_sch (u_org u)) = false.
+
+(* ---- concrete values used by the Examples of Props/C17.v (non-vacuity) ---------------------- *)
+
+Definition ex_A : origin := {| o_sch := 0; o_host := 0; o_port := None |}.
+Definition ex_B : origin := {| o_sch := 0; o_host := 1; o_port := None |}.
+Definition ex_q : request :=
+  {| q_meth := MPost; q_url := {| u_org := ex_A; u_cred := None; u_path := 0 |};
+     q_auth := Some 1; q_cookie := Some [(1, 101)]; q_pauth := Some 2; q_reqck := Some [(2, 201)];
+     q_body := BReplay 1; q_clen := false; q_jar := [(0, 3, 301); (1, 4, 302)] |}.
+Definition ex_c : config := {| c_max := 10; c_allow := true |}.
+(* A -307-> A/p1 -302-> u7:p7@B/p2 -301-> A/p3 -> 200 *)
+Definition ex_resps : list response :=
+  [ {| rs_status := 307; rs_setcookie := [(5, 401)]; rs_loc := LRel 1 |};
+    {| rs_status := 302; rs_setcookie := []; rs_loc := LAbs {| u_org := ex_B; u_cred := Some 7; u_path := 2 |} |};
+    {| rs_status := 301; rs_setcookie := []; rs_loc := LAbs {| u_org := ex_A; u_cred := None; u_path := 3 |} |};
+    {| rs_status := 200; rs_setcookie := []; rs_loc := LNone |} ].
+
